@@ -55,7 +55,7 @@ func mirror(peer io.ReadWriteCloser, ue, uc bool, key string) (io.ReadWriteClose
 // transparent sends a payload a -> b and another b -> a and compares; deadline applies to each direction.
 func transparent(a io.ReadWriter, b io.ReadWriter, setDeadline func(time.Time), payload []byte) bool {
 	oneWay := func(w io.Writer, r io.Reader, p []byte) bool {
-		setDeadline(time.Now().Add(400 * time.Millisecond))
+		setDeadline(time.Now().Add(3 * time.Second))
 		go func() { _, _ = w.Write(p) }()
 		buf := make([]byte, len(p))
 		if _, err := io.ReadFull(r, buf); err != nil {
@@ -93,7 +93,6 @@ func managerCase(g *gen, dist map[string]int) (string, []map[string]string) {
 		switch {
 		case r < 15:
 			name, sk, allow := g.Pick(namePool), g.sk(), g.allow()
-			allows[name] = allow
 			l, err := vm.Listen(name, sk, allow)
 			z := int64(0)
 			if err != nil {
@@ -104,6 +103,7 @@ func managerCase(g *gen, dist map[string]int) (string, []map[string]string) {
 			} else {
 				listeners[name] = l
 				sks[name] = sk
+				allows[name] = allow
 			}
 			ops = append(ops, fmt.Sprintf("VmListen %s %s %s", hx.HxS(name), hx.HxS(sk), coqStrs(allow)))
 			obs = append(obs, obsZ(z))
@@ -144,6 +144,11 @@ func managerCase(g *gen, dist map[string]int) (string, []map[string]string) {
 				} else {
 					a.Close()
 					b.Close()
+				}
+				if z == 0 && (kind != "right" || !(contains(allows[name], user) || contains(allows[name], "*"))) {
+					fails = append(fails, map[string]string{"key": "manager:queued-without-key-or-user",
+						"what": "visitor.Manager.NewConn queued a connection whose signature is wrong or whose user is outside allowUsers",
+						"case": fmt.Sprintf("name=%s user=%q allowUsers=%q signature=%s", name, user, allows[name], kind)})
 				}
 				ops = append(ops, fmt.Sprintf("VmNewConn %s %s %s %s %s %s %s", hx.HxS(name), hx.Z(cid), hx.Z(ts), hx.HxS(sign),
 					hx.Bool(ue), hx.Bool(uc), hx.HxS(user)))
